@@ -164,6 +164,8 @@ def build(formula, df):
     lv = [30, 10, 20]  # noqa: F841  (looked up by the formula)
     flv = ["b", "c", "a"]  # noqa: F841
     kn = [2.0, 3.0]  # noqa: F841
+    xv = np.array([1.0, 2.5, 0.5, 4.0, 3.0, 2.0, 5.5, 1.5])[: len(df)]  # noqa: F841  arrays of the caller, not columns
+    yv = np.array([0.2, 0.1, 0.7, 0.4, 0.9, 0.3, 0.8, 0.6])[: len(df)]  # noqa: F841
 
     def up(s):  # a user function returning strings: a categorical call without C()
         return s.str.upper()
